@@ -1,12 +1,12 @@
 #!/bin/bash
 # usage: tools_mutant.sh <seeded dir> <property...>   — apply patch to /repo, run the quick checks, undo
 set -u
-D="$1"; shift
+D="$(cd "$1" && pwd)"; shift
 cd /repo && git status --short | grep -v '^??' && { echo "repo dirty"; exit 2; }
 git -C /repo apply "$D/patch.diff" || { echo "patch does not apply"; exit 2; }
 for P in "$@"; do
   echo "== $P with $(basename $D)"
-  ( cd /verif && VERIF_EVIDENCE=/tmp/mutant_evidence_$P.json ./check $P quick 2>&1 | grep -v "^KNOWN" | head -12 )
+  ( cd /verif && VERIF_REPLAY_DIR=/tmp/mutant_replays VERIF_EVIDENCE=/tmp/mutant_evidence_$P.json ./check $P quick 2>&1 | grep -v "^KNOWN" | head -12 )
 done
 git -C /repo checkout -- .
 echo "== repo restored"; git -C /repo status --short | grep -v '^??'
